@@ -83,8 +83,34 @@ func main() {
 	dump := flag.Bool("dump", false, "dump obligations (debug)")
 	evidence := flag.Bool("evidence", true, "write evidence file")
 	listFuncs := flag.Bool("list", false, "list functions")
+	replayFile := flag.String("replay", "", "replay file written for a VIOLATION line: re-check that obligation on the current tree (and re-run its counterexample)")
 	flag.Parse()
 	start := time.Now()
+	replayOb := ""
+	if *replayFile != "" {
+		raw, err := os.ReadFile(*replayFile)
+		if err != nil {
+			fmt.Fprintf(os.Stderr, "govc: %v\n", err)
+			os.Exit(2)
+		}
+		var content map[string]any
+		if err := json.Unmarshal(raw, &content); err != nil {
+			fmt.Fprintf(os.Stderr, "govc: %v\n", err)
+			os.Exit(2)
+		}
+		replayOb, _ = content["obligation"].(string)
+		if p, ok := content["property"].(string); ok && *prop == "" {
+			*prop = p
+		}
+		if i := strings.Index(replayOb, "#"); i > 0 {
+			*only = replayOb[:i]
+		} else {
+			fmt.Printf("replay: %s does not name an obligation of a function (%v)\n", *replayFile, content["error"])
+			os.Exit(1)
+		}
+		*evidence = false
+		fmt.Printf("replay: re-checking %s on the current tree\n", replayOb)
+	}
 	seed := 0
 	if s := os.Getenv("VERIF_SEED"); s != "" {
 		seed, _ = strconv.Atoi(s)
@@ -146,12 +172,25 @@ func main() {
 		}
 		fcs = append(fcs, fc)
 		for _, ob := range fc.obligations {
+			if replayOb != "" {
+				if ob.Name == replayOb {
+					all = append(all, ob)
+				}
+				continue
+			}
 			if *prop == "" || *only != "" || hasProp(ob.Props, *prop) {
 				all = append(all, ob)
 			}
 		}
 	}
+	if replayOb != "" && len(all) == 0 && len(bindFailures) == 0 {
+		fmt.Printf("replay: obligation %s is not generated from the current tree any more\n", replayOb)
+		os.Exit(0)
+	}
 	qdir := filepath.Join(*outDir, "queries", *prop)
+	if replayOb != "" {
+		qdir = filepath.Join(*outDir, "queries", "replay")
+	}
 	os.RemoveAll(qdir)
 	solveAll(all, qdir, timeout, cross, 12)
 	if *dump {
@@ -175,6 +214,9 @@ func writeReplayFile(outDir, prop, name string, content map[string]any) string {
 	dir := filepath.Join(outDir, "replay", prop)
 	os.MkdirAll(dir, 0o755)
 	p := filepath.Join(dir, sanitizeFile(name)+".json")
+	if _, has := content["property"]; !has {
+		content["property"] = prop
+	}
 	data, _ := json.MarshalIndent(content, "", " ")
 	os.WriteFile(p, data, 0o644)
 	return p
